@@ -312,7 +312,7 @@ func c07Alphabet(file bool) []*sessmc.Event {
 	a := []*sessmc.Event{
 		sessmc.EvConnect(), sessmc.EvDisconnect(),
 		sessmc.EvLogon(0, 0, ""), sessmc.EvLogon(0, 0, "N"), sessmc.EvLogon(0, 1, "Y"), sessmc.EvLogon(0, 1, ""), sessmc.EvLogon(2, 0, ""),
-		sessmc.EvIn("D", 0, false), sessmc.EvIn("5", 0, false), sessmc.EvStop(), sessmc.EvSend(), sessmc.EvFlush(),
+		sessmc.EvIn("D", 0, false), sessmc.EvIn("5", 0, false), sessmc.EvIn("5", -1, false), sessmc.EvIn("5", 2, false), sessmc.EvStop(), sessmc.EvSend(), sessmc.EvFlush(),
 		sessmc.EvSeqResetT(0, -2, "", false), sessmc.EvSeqResetT(0, 3, "", false), sessmc.EvSeqResetT(0, 3, "Y", false),
 	}
 	// Logons that are not acceptable (refused by the application, foreign CompID, stale SendingTime):
